@@ -77,7 +77,18 @@ func vupOps() []vupOp {
 		{"Wa", wr("aaaaaaaaaaaaaaaa")},
 		{"Wb", wr("bbbbbbbb")},
 		{"Vbad", func(u BlobCreator, st *vupState) string { return vupErr(u.Verify(digest.FromString("something else"))) }},
+		{"Vgood", func(u BlobCreator, st *vupState) string { return vupErr(u.Verify(digest.FromBytes(st.written))) }},
 		{"Close", closeOp},
+		{"CloseRaw", func(u BlobCreator, st *vupState) string {
+			err := u.Close()
+			if err == nil && !st.ended {
+				st.ended = true
+				want := digest.FromBytes(st.written)
+				st.stored[want.String()] = true
+				st.content[want.String()] = append([]byte{}, st.written...)
+			}
+			return vupErr(err)
+		}},
 		{"Cancel", func(u BlobCreator, st *vupState) string {
 			err := u.Cancel()
 			if err == nil {
@@ -136,94 +147,107 @@ func TestVerifUpload(t *testing.T) {
 		}
 	}
 	rec(nil)
+	pins := []string{"none", "a", "x"} // unpinned; pinned to the digest of one `Wa` chunk; pinned to a digest no sequence produces
 	for _, kind := range []string{"mem", "dir", "memdir"} {
-		for _, seq := range seqs {
-			lineNo++
-			root := t.TempDir()
-			boolT := true
-			conf := config.Config{}
-			conf.Storage.RootDir = root
-			conf.Storage.GC.Frequency = -1
-			conf.Storage.GC.GracePeriod = -1
-			conf.Storage.GC.EmptyRepo = &boolT
-			conf.SetDefaults()
-			var st Store
-			switch kind {
-			case "dir":
-				conf.Storage.StoreType = config.StoreDir
-				st = NewDir(conf)
-			case "memdir":
-				conf.Storage.StoreType = config.StoreMem
-				st = NewMem(conf)
-			default:
-				conf.Storage.StoreType = config.StoreMem
-				conf.Storage.RootDir = ""
-				st = NewMem(conf)
-			}
-			repo, err := st.RepoGet(context.Background(), "r")
-			if err != nil {
-				t.Fatalf("RepoGet: %v", err)
-			}
-			state := &vupState{stored: map[string]bool{}, content: map[string][]byte{}}
-			u, _, err := repo.BlobCreate()
-			if err != nil {
-				t.Fatalf("BlobCreate: %v", err)
-			}
-			names, outs := []string{}, []string{}
-			for _, i := range seq {
-				names = append(names, ops[i].name)
-				outs = append(outs, ops[i].run(u, state))
-			}
-			// a second session: other bytes, completed
-			other := []byte("cccccccccccccccccccccccccccccccc-second-session")
-			u2, _, err := repo.BlobCreate()
-			if err != nil {
-				flag("C08.session-create-failed", fmt.Sprintf("%s %s: a new session cannot be opened: %v", kind, strings.Join(names, ","), err))
-			} else {
-				_, _ = u2.Write(other)
-				d2 := digest.FromBytes(other)
-				if err := u2.Verify(d2); err != nil {
-					flag("C01.store-verify", fmt.Sprintf("%s %s: the second session does not verify its own content: %v", kind, strings.Join(names, ","), err))
-				} else if err := u2.Close(); err != nil {
-					flag("C08.session-close-failed", fmt.Sprintf("%s %s: the second session cannot be completed: %v", kind, strings.Join(names, ","), err))
-				} else {
-					state.stored[d2.String()] = true
-					state.content[d2.String()] = other
+		for _, pin := range pins {
+			for _, seq := range seqs {
+				if pin != "none" && len(seq) > maxLen-1 {
+					continue // pinned sessions one call shorter (the scenario count triples otherwise)
 				}
-			}
-			// whatever was called on the first object after its end, once more now that other content has gone through the store
-			if state.ended {
-				_, _ = u.Write([]byte("zzzz"))
-				_ = u.Cancel()
-			}
-			for ds, want := range state.content {
-				got, err := vupReadAll(repo, digest.Digest(ds))
+				lineNo++
+				root := t.TempDir()
+				boolT := true
+				conf := config.Config{}
+				conf.Storage.RootDir = root
+				conf.Storage.GC.Frequency = -1
+				conf.Storage.GC.GracePeriod = -1
+				conf.Storage.GC.EmptyRepo = &boolT
+				conf.SetDefaults()
+				var st Store
+				switch kind {
+				case "dir":
+					conf.Storage.StoreType = config.StoreDir
+					st = NewDir(conf)
+				case "memdir":
+					conf.Storage.StoreType = config.StoreMem
+					st = NewMem(conf)
+				default:
+					conf.Storage.StoreType = config.StoreMem
+					conf.Storage.RootDir = ""
+					st = NewMem(conf)
+				}
+				repo, err := st.RepoGet(context.Background(), "r")
 				if err != nil {
-					flag("C08.completed-blob-lost", fmt.Sprintf("%s %s: blob %s published by a successful Close cannot be read: %v", kind, strings.Join(names, ","), ds[:19], err))
-					continue
+					t.Fatalf("RepoGet: %v", err)
 				}
-				if digest.FromBytes(got).String() != ds {
-					flag("C01.served-hash", fmt.Sprintf("%s %s: blob %s reads back %d bytes that hash to %s", kind, strings.Join(names, ","), ds[:19], len(got), digest.FromBytes(got).String()[:19]))
-				} else if string(got) != string(want) {
-					flag("C08.completed-blob-differs", fmt.Sprintf("%s %s: blob %s differs from the accepted chunks", kind, strings.Join(names, ","), ds[:19]))
+				state := &vupState{stored: map[string]bool{}, content: map[string][]byte{}}
+				var opts []BlobOpt
+				switch pin {
+				case "a":
+					opts = append(opts, BlobWithDigest(digest.FromString("aaaaaaaaaaaaaaaa")))
+				case "x":
+					opts = append(opts, BlobWithDigest(digest.FromString("pinned to something else")))
 				}
-			}
-			// for the comparison with the model (lean/Sess): are the bytes the object accepted published now?
-			pub := 0
-			if got, err := vupReadAll(repo, digest.FromBytes(state.written)); err == nil && string(got) == string(state.written) {
-				pub = 1
-			}
-			if !state.ended {
-				_ = u.Cancel()
-			}
-			if kind == "dir" {
-				if ents, err := os.ReadDir(filepath.Join(root, "r", "_uploads")); err == nil && len(ents) > 0 {
-					flag("C08.residue", fmt.Sprintf("%s %s: %d files left in _uploads after every session has ended", kind, strings.Join(names, ","), len(ents)))
+				u, _, err := repo.BlobCreate(opts...)
+				if err != nil {
+					t.Fatalf("BlobCreate: %v", err)
 				}
+				names, outs := []string{}, []string{}
+				for _, i := range seq {
+					names = append(names, ops[i].name)
+					outs = append(outs, ops[i].run(u, state))
+				}
+				// a second session: other bytes, completed
+				other := []byte("cccccccccccccccccccccccccccccccc-second-session")
+				u2, _, err := repo.BlobCreate()
+				if err != nil {
+					flag("C08.session-create-failed", fmt.Sprintf("%s/"+pin+" %s: a new session cannot be opened: %v", kind, strings.Join(names, ","), err))
+				} else {
+					_, _ = u2.Write(other)
+					d2 := digest.FromBytes(other)
+					if err := u2.Verify(d2); err != nil {
+						flag("C01.store-verify", fmt.Sprintf("%s/"+pin+" %s: the second session does not verify its own content: %v", kind, strings.Join(names, ","), err))
+					} else if err := u2.Close(); err != nil {
+						flag("C08.session-close-failed", fmt.Sprintf("%s/"+pin+" %s: the second session cannot be completed: %v", kind, strings.Join(names, ","), err))
+					} else {
+						state.stored[d2.String()] = true
+						state.content[d2.String()] = other
+					}
+				}
+				// whatever was called on the first object after its end, once more now that other content has gone through the store
+				if state.ended {
+					_, _ = u.Write([]byte("zzzz"))
+					_ = u.Cancel()
+				}
+				for ds, want := range state.content {
+					got, err := vupReadAll(repo, digest.Digest(ds))
+					if err != nil {
+						flag("C08.completed-blob-lost", fmt.Sprintf("%s/"+pin+" %s: blob %s published by a successful Close cannot be read: %v", kind, strings.Join(names, ","), ds[:19], err))
+						continue
+					}
+					if digest.FromBytes(got).String() != ds {
+						flag("C01.served-hash", fmt.Sprintf("%s/"+pin+" %s: blob %s reads back %d bytes that hash to %s", kind, strings.Join(names, ","), ds[:19], len(got), digest.FromBytes(got).String()[:19]))
+					} else if string(got) != string(want) {
+						flag("C08.completed-blob-differs", fmt.Sprintf("%s/"+pin+" %s: blob %s differs from the accepted chunks", kind, strings.Join(names, ","), ds[:19]))
+					}
+				}
+				// for the comparison with the model (lean/Sess): are the bytes the object accepted published now?
+				pub := 0
+				if got, err := vupReadAll(repo, digest.FromBytes(state.written)); err == nil && string(got) == string(state.written) {
+					pub = 1
+				}
+				if !state.ended {
+					_ = u.Cancel()
+				}
+				if kind == "dir" {
+					if ents, err := os.ReadDir(filepath.Join(root, "r", "_uploads")); err == nil && len(ents) > 0 {
+						flag("C08.residue", fmt.Sprintf("%s/"+pin+" %s: %d files left in _uploads after every session has ended", kind, strings.Join(names, ","), len(ents)))
+					}
+				}
+				repo.Done()
+				_ = st.Close()
+				fmt.Fprintf(impl, "%s/%s %s -> %s pub=%d\n", kind, pin, strings.Join(names, ","), strings.Join(outs, ","), pub)
 			}
-			repo.Done()
-			_ = st.Close()
-			fmt.Fprintf(impl, "%s %s -> %s pub=%d\n", kind, strings.Join(names, ","), strings.Join(outs, ","), pub)
 		}
 	}
 }
